@@ -12,9 +12,8 @@ Model of the Rust code behind property C18 (import-free).
 * `appendTextComment`      — src/rules/append_text_comment.rs: `process` + `AppendLocation::append_comment`
                              + src/nodes/block.rs `mutate_first_token` / `mutate_last_token`
 
-The model mirrors the code as it is, including: the single-line branch that emits `--` ++ text
-whatever the text starts with or contains (F20, F21), and the line shift that is applied for
-location `end` as well as for `start`.
+The model mirrors the code as it is (after the fix of F20/F21: the long-comment form is also used for a
+text containing CR or starting with a long-bracket opener), and, after the fix of F25, the line shift applied for location `start` only.
 -/
 namespace DarkluaModel.C18
 
@@ -37,10 +36,19 @@ def findLevel : Nat → Nat → Bytes → Nat
   | fuel + 1, k, content =>
     if !containsSub (closeComment k) content then k else findLevel fuel (k + 1) content
 
+/-- `starts_with_long_bracket`: `[` `=`* `[` at the start of the text -/
+def startsWithLongBracket : Bytes → Bool
+  | 91 :: rest => (rest.dropWhile (· == 61)).head? == some 91
+  | _ => false
+
+/-- the branch condition of `text()`: `content.contains(['\n', '\r']) || starts_with_long_bracket(&content)` -/
+def useLongForm (content : Bytes) : Bool :=
+  content.contains 10 || content.contains 13 || startsWithLongBracket content
+
 /-- `AppendTextComment::text`: what is stored as the content of the comment trivia. -/
 def commentText (content : Bytes) : Bytes :=
   if content.isEmpty then []
-  else if content.contains 10 then
+  else if useLongForm content then
     let k := findLevel (content.length + 1) 0 content
     -- format!("--[{}[\n{}\n{}", "=".repeat(equal_count), content, close_comment)
     [45, 45, 91] ++ List.replicate k 61 ++ [91, 10] ++ content ++ [10] ++ closeComment k
@@ -180,12 +188,16 @@ def attachComment (loc : AppendLocation) (text : Bytes) (f : File) : File :=
     | .start => { f with tokens := mapHead (appendComment loc text) f.tokens }
     | .end => { f with tokens := mapLast (appendComment loc text) f.tokens }
 
-/-- `AppendTextComment::process`: nothing for an empty text; otherwise shift every token by
-`text.lines().count()` (whatever the location), then attach the comment. -/
+/-- `AppendTextComment::process`: nothing for an empty text; for location `start` shift every token by
+`text.lines().count()` and attach the comment to the first token; for `end` attach it to the last
+token (no shift: nothing moves). -/
 def appendTextComment (loc : AppendLocation) (content : Bytes) (f : File) : File :=
   let text := commentText content
   if text.isEmpty then f
-  else attachComment loc text (f.mapTokens (Token.shiftTokenLine (linesCount text)))
+  else
+    match loc with
+    | .start => attachComment .start text (f.mapTokens (Token.shiftTokenLine (linesCount text)))
+    | .end => attachComment .end text f
 
 /-! ### the AST as `impl_token_fns!` sees it (src/nodes/mod.rs)
 
